@@ -25,6 +25,15 @@ case "$FAKE_JAVA_MODE" in
     printf '%s\n' "Caused by XFormParser.java:99 something" >&2
     printf '%s\n' "Result: Invalid" >&2
     exit 1 ;;
+  reject_rc2)
+    printf '%s\n' "org.javarosa.xform.parse.XFormParseException: Problem at /data/grp/q1 here" >&2
+    printf '%s\n' "org.javarosa.xform.parse.XFormParseException: Problem at /data/grp/q1 here" >&2
+    printf '\tat org.javarosa.xform.parse.XFormParser.parse(XFormParser.java:123)\n' >&2
+    printf '%s\n' "Result: Invalid" >&2
+    exit 2 ;;
+  reject_rc255_empty) exit 255 ;;
+  reject_arbitrary) printf '%s\n' "zzz arbitrary <&> ]]> diagnostic 42" >&2; printf 'no newline at end' >&2; exit 3 ;;
+  killed_term) kill -15 $$ ;;
   corrupt_jar) echo "Error: Unable to access jarfile /some/where/ODK_Validate.jar" >&2; exit 1 ;;
   killed) kill -9 $$ ;;
   *) exit 0 ;;
@@ -68,6 +77,9 @@ def msg_clean(message):
             and sum(1 for l in lines if "Problem at" in l) == 1 and "Result: Invalid" in message)
 
 
+CARRIED = {"reject": "Problem at", "reject_rc2": "Problem at", "reject_arbitrary": "zzz arbitrary <&> ]]> diagnostic 42", "corrupt_jar": "Unable to access jarfile"}
+
+
 def execute(cfg, repo):
     """-> observed event. Everything happens in a private directory tree that is removed afterwards."""
     root = tempfile.mkdtemp(prefix="c18-", dir="/var/tmp")
@@ -99,7 +111,8 @@ def execute(cfg, repo):
         if os.path.exists(log):
             os.unlink(log)
         e = cfg["entry"]
-        obs = {"ev": "observed", "exc": "none", "code": 0, "warn_stderr": False, "warn_badrc": False, "msg_clean": False, "raw": ""}
+        obs = {"ev": "observed", "exc": "none", "code": 0, "warn_stderr": False, "warn_badrc": False, "msg_clean": False, "msg_carries": False, "raw": ""}
+        carried = CARRIED.get(cfg["vout"], "\x00")
         if e == "lib":
             p = subprocess.run([py, "-c", LIB_DRIVER, form_path], env=env, capture_output=True, text=True, timeout=200)
             res = json.loads(p.stdout.split("@@RESULT@@")[1]) if "@@RESULT@@" in p.stdout else {"exc": "crash:noresult", "message": p.stderr[-300:], "warnings": []}
@@ -108,6 +121,7 @@ def execute(cfg, repo):
             obs["warn_stderr"] = "something about" in ws
             obs["warn_badrc"] = "Bad return code" in ws
             obs["msg_clean"] = msg_clean(res.get("message") or "")
+            obs["msg_carries"] = carried in (res.get("message") or "")
             obs["raw"] = (res.get("message") or "")[:300]
         else:
             args = [py, "-m", "pyxform.xls2xform", form_path, out_path]
@@ -135,6 +149,7 @@ def execute(cfg, repo):
                     obs["warn_stderr"] = "something about" in ws
                     obs["warn_badrc"] = "Bad return code" in ws
                     obs["msg_clean"] = msg_clean(msg)
+                    obs["msg_carries"] = carried in msg
                     if resp["code"] == 999:
                         if "ODK Validate Errors" in msg:
                             obs["exc"] = "ODKValidateError"
@@ -146,6 +161,7 @@ def execute(cfg, repo):
                 if "ODKValidateError during conversion" in text:
                     obs["exc"] = "ODKValidateError"
                     obs["msg_clean"] = msg_clean(text)
+                    obs["msg_carries"] = carried in text
                 elif "EnvironmentError during conversion" in text:
                     obs["exc"] = "OSError"
                 elif "PyXFormError" in text and p.returncode != 0:
